@@ -1,6 +1,6 @@
 (* C02 -- grow-only flat index: every append/extend history keeps the bijection (under the explicit
    guard go_dom), labels = initial labels followed by the accepted values in order. *)
-Require Import SF.Prelude SF.PySlice SF.IndexBij Proofs.IndexBijFacts Proofs.IndexBijMain.
+Require Import SF.Prelude SF.PySlice Gen.Gen_c02 SF.IndexBij Proofs.IndexBijFacts Proofs.IndexBijMain.
 
 Section GO.
   Set Default Proof Using "All".
@@ -233,7 +233,10 @@ Section GO.
     - apply map_ext_in. intros k Hk. rewrite forallb_forall in G. specialize (G k Hk).
       unfold M_go_lookup, go_probe_ok, go_cold_ok, S_lookup in *. destruct (g_map g) as [m|].
       + destruct Mp as [Wm F]. rewrite (am_get_index C ceqb ceqb_spec m (fst k) Wm), F. reflexivity.
-      + apply negb_true_iff in Cold. destruct (Rc Cold) as [_ Np]. rewrite Np, Cn.
+      + apply negb_true_iff in Cold. destruct (Rc Cold) as [_ Np].
+        replace (if Gen_c02.gen_loc_to_iloc_recaches then g_count g else g_npos g) with (g_count g)
+          by (destruct Gen_c02.gen_loc_to_iloc_recaches; [reflexivity | symmetry; exact Np]).
+        rewrite Cn.
         pose proof (auto_lookup_refines C ceqb of_Z to_Z ceqb_spec to_of of_to (length (g_mut g)) k G) as A.
         unfold M_loc_to_iloc, S_lookup, M_index_auto in A. cbn [ix_map ix_labels] in A.
         unfold zlen in A at 1. rewrite map_length, iota_length in A. rewrite <- Mp in A. exact A.
